@@ -52,13 +52,38 @@ def _tables(lv, s, a):
     return out
 
 
+STEP_BUDGET = 60000     # per train_on; the generated proper MDPs need a few thousand steps at most
+
+
+class StepBudgetExceeded(Exception):
+    pass
+
+
+def make_twin_listener(td):
+    class Budgeted(td.EpisodeRewardEventListener):
+        def __init__(self):
+            super().__init__()
+            self.nsteps = 0
+
+        def end_of_timestep(self, lv):
+            self.nsteps += 1
+            if self.nsteps > STEP_BUDGET:
+                raise StepBudgetExceeded("more than %d steps in one train_on" % STEP_BUDGET)
+            super().end_of_timestep(lv)
+    return Budgeted
+
+
 def make_listener(td, kind):
     class Recorder(td.TDLearningEventListener):
         def __init__(self):
             self.episodes = []
             self.cur = None
+            self.nsteps = 0
 
         def end_of_timestep(self, lv):
+            self.nsteps += 1
+            if self.nsteps > STEP_BUDGET:
+                raise StepBudgetExceeded("more than %d steps in one train_on" % STEP_BUDGET)
             sid, aid = _CTX["sid"], _CTX["aid"]
             if self.cur is None:
                 self.cur = {"start": sid[lv["s"]], "steps": []}
@@ -314,7 +339,7 @@ def one(case, pl):
         if case["seed"] is None:
             random.seed(case.get("global_seed", 0))
         twin_iq = StatefulInitialQ(tbl, fl(iq["delta"]), sid0, aid0) if stateful is not None else initial_q
-        twin = construct(twin_iq).train_on(mdp)
+        twin = construct(twin_iq, event_listener_class=make_twin_listener(td)).train_on(mdp)
         tq = twin.q_values
         twin_table = {sid[s]: {aid[a]: v for a, v in dict.items(dict.__getitem__(tq, s))} for s in dict.keys(tq)}
         mine = {sid[s]: {aid[a]: v for a, v in dict.items(dict.__getitem__(q, s))} for s in keys}
